@@ -84,8 +84,10 @@ def make_sampler(name, n, m, kind, log, source_attr="data_source", dataset=None,
         return R(data) if kind == "real_seq" else R(data, num_replicas=dist["W"], rank=dist["rank"], shuffle=False)
 
     class Base:
+        len_override = None  # a sampler whose pool grows / shrinks between two uses reports another length
+
         def __len__(self):
-            return n
+            return n if self.len_override is None else self.len_override
 
     if kind == "epochperm":
         class S(Base):
@@ -332,27 +334,67 @@ class Rejected(Exception):
     pass
 
 
-def make_configs(w, log, objs, collators=None):
+class InjectedSamplerError(OSError):
+    """the storage / index file behind a side sampler fails while the sampler is being iterated (fault injected by the harness)"""
+
+
+class FailingSampler:
+    """proxy around a side sampler: its `p`-th pass (0-based) raises after k indices; everything else is the sampler's own"""
+
+    def __init__(self, inner, p, k, log):
+        self.__dict__.update(_inner=inner, _p=p, _k=k, _passes=0, _log=log)
+
+    def __getattr__(self, name):
+        return getattr(self._inner, name)
+
+    def __setattr__(self, name, value):
+        setattr(self._inner, name, value)
+
+    def __len__(self):
+        return len(self._inner)
+
+    def __iter__(self):
+        me = self.__dict__
+        this = me["_passes"]
+        me["_passes"] += 1
+        it = iter(self._inner)
+        if this != me["_p"]:
+            yield from it
+            return
+        for j, idx in enumerate(it):
+            if j >= me["_k"]:
+                me["_log"].append(["side-sampler-fails"])
+                raise InjectedSamplerError(5, f"injected: side sampler fails after {j} indices of pass {this}")
+            yield idx
+
+
+def make_configs(w, log, objs, collators=None, side_fault=None):
     from kappadata.samplers.interleaved_sampler import InterleavedSamplerConfig
     attr = w.get("source_attr", "data_source")
     cfgs = []
     for ci, c in enumerate(w["configs"]):
         s = make_sampler(f"c{ci}", c["n"], c["m"], c["kind"], log, attr, dataset=objs[ci + 1], dist=c.get("dist"))
+        if side_fault and side_fault["ci"] % len(w["configs"]) == ci:
+            s = FailingSampler(s, side_fault["p"], side_fault["k"], log)
         cfgs.append(InterleavedSamplerConfig(sampler=s, every_n_epochs=c["ene"], every_n_updates=c["enu"],
                                              every_n_samples=c["ens"], batch_size=c["bs"],
                                              collator=collators[ci + 1] if collators else None))
     return cfgs
 
 
-def build(w, log, start=None, datasets=None, collators=None, cfg_objs=None, only_configs=False):
+def build(w, log, start=None, datasets=None, collators=None, cfg_objs=None, only_configs=False, side_fault=None, main_obj=None,
+          only_main=False):
     from kappadata.samplers.interleaved_sampler import InterleavedSampler, InterleavedSamplerConfig
     attr = w.get("source_attr", "data_source")
     objs = list(datasets) if datasets else [_Sized(w["M"])] + [_Sized(c["m"]) for c in w["configs"]]
     for ci, c in enumerate(w["configs"]):
         if c.get("share_with") is not None and c["share_with"] <= ci:
             objs[ci + 1] = objs[c["share_with"]]  # the very same dataset object, used by two samplers
-    main = make_sampler("main", w["N"], w["M"], w["main_kind"], log, attr, dataset=objs[0], dist=w.get("dist"))
-    cfgs = cfg_objs if cfg_objs is not None else make_configs(w, log, objs, collators)
+    main = main_obj if main_obj is not None else \
+        make_sampler("main", w["N"], w["M"], w["main_kind"], log, attr, dataset=objs[0], dist=w.get("dist"))
+    if only_main:
+        return main
+    cfgs = cfg_objs if cfg_objs is not None else make_configs(w, log, objs, collators, side_fault)
     if only_configs:
         return cfgs
     kw = {w["budget"][0]: w["budget"][1]}
@@ -368,13 +410,28 @@ def build(w, log, start=None, datasets=None, collators=None, cfg_objs=None, only
 def gen_company(rng, w):
     """a second InterleavedSampler built from the SAME config objects (a trainer that builds its eval configs once and uses them
     for an eval-only sampler and for the training sampler): other main batch size, its own main sampler, own budget"""
-    return dict(order=rng.choice(["before", "after"]), B=rng.choice([1, 2, 3, 5, 8]), budget=rng.choice([["epochs", 0], ["epochs", 1], ["updates", 3]]),
+    comp = dict(order=rng.choice(["before", "after"]), B=rng.choice([1, 2, 3, 5, 8]), budget=rng.choice([["epochs", 0], ["epochs", 1], ["updates", 3]]),
                 consume=rng.choice(["none", "all", "interleaved", "interleaved"]), pattern=rng.getrandbits(32))
+    if rng.random() < 0.3 and w["main_kind"] not in ("dist",):
+        # the earlier sampler was built over the very SAME main sampler object, with the same batch parameters, at a time when
+        # that sampler reported another length (its pool has changed since); it is never iterated
+        comp.update(order="before", consume="none", share_main_len=rng.choice([w["N"] + rng.randint(1, 9), max(w["B"], w["N"] - rng.randint(1, 3)),
+                                                                             2 * w["N"] + 1]), B=w["B"], budget=list(w["budget"]))
+    return comp
 
 
-def _build_company(w, s, comp, log):
+def _build_company(w, s, comp, log, main_obj=None):
     from kappadata.samplers.interleaved_sampler import InterleavedSampler
     junk = []
+    if main_obj is not None:
+        main_obj.len_override = comp["share_main_len"]
+        try:
+            return InterleavedSampler(main_sampler=main_obj, batch_size=w["B"], configs=s, drop_last=w["drop_last"],
+                                      drop_last_batch_size=w["dlbs"], **{comp["budget"][0]: comp["budget"][1]})
+        except (AssertionError, NotImplementedError) as e:
+            raise Rejected(f"company: {type(e).__name__}: {e}")
+        finally:
+            main_obj.len_override = None
     n2 = max(w["N"], comp["B"])
     m2 = max(w["M"], n2)
     main2 = make_sampler("main2", n2, m2, "seq", junk, w.get("source_attr", "data_source"), dataset=_Sized(m2))
@@ -385,7 +442,8 @@ def _build_company(w, s, comp, log):
         raise Rejected(f"company: {type(e).__name__}: {e}")
 
 
-def run_sampler(w, start=None, via="sampler", cap=None, sampler=None, log=None, foreign_epoch=None, company=None, overlap=None):
+def run_sampler(w, start=None, via="sampler", cap=None, sampler=None, log=None, foreign_epoch=None, company=None, overlap=None,
+                side_fault=None):
     """returns (history, terminated); `sampler`/`log` allow a second pass over the same object.
     company: see gen_company - its own events never enter the history (the shared samplers' log entries made while the company
     runs are cut out again); overlap: [(position, n)] - after `position` items of this iteration a second iterator over the same
@@ -397,10 +455,15 @@ def run_sampler(w, start=None, via="sampler", cap=None, sampler=None, log=None, 
         if company is not None and company["order"] == "before":
             # configs first, company second, the sampler under test last
             cfgs = build(w, log, start, only_configs=True)
-            comp_obj = _build_company(w, cfgs, company, log)
-            s = build(w, log, start, cfg_objs=cfgs)
+            main_obj = None
+            if company.get("share_main_len") is not None:
+                main_obj = build(w, log, start, only_main=True)
+                if not hasattr(main_obj, "len_override"):
+                    main_obj = None
+            comp_obj = _build_company(w, cfgs, company, log, main_obj=main_obj)
+            s = build(w, log, start, cfg_objs=cfgs, main_obj=main_obj)
         else:
-            s = build(w, log, start)
+            s = build(w, log, start, side_fault=side_fault)
             if company is not None:
                 comp_obj = _build_company(w, s, company, log)
         if foreign_epoch is not None and hasattr(s.main_sampler, "epoch"):
@@ -450,6 +513,9 @@ def run_sampler(w, start=None, via="sampler", cap=None, sampler=None, log=None, 
             got = next(it)
         except StopIteration:
             break
+        except InjectedSamplerError:
+            log.append(["raised"])  # the stream ends loudly with the injected error
+            return log, True
         pos += 1
         if via == "sampler":
             full, idx = got
